@@ -140,6 +140,7 @@ def gen_function(contract, contracts, known=()):
             S.GHOST["mean"] = []
             S.GHOST["masked_mean"] = []
             S.GHOST["sum_labels"] = []
+            S.GHOST["flatten"] = []
             interp.write_log = []
             interp.spec = 0
             V.reset_fresh()
